@@ -46,8 +46,9 @@ static void prf(void)
     }
     static const size_t longs[] = {255, 256, 257, 1023, 1024, 1025, 4095, 4096, 4097, 65535, 65536, 65537};
     if (tier) for (unsigned i = 0; i < 12; i++) {
-        uint8_t *o = hx_buf(longs[i]);
+        uint8_t *o = hx_buf(40);
         ref_prf(key, 0, msg, longs[i], exp, 40); ascon_prf(o, 40, msg, longs[i], key); cmpo("prf:oneshot", o, exp, 40, "long inlen", longs[i], 40, 0, 0);
+        hx_free(o); o = hx_buf(longs[i]);
         ref_prf(key, 0, msg, 9, exp, longs[i]); ascon_prf(o, longs[i], msg, 9, key); cmpo("prf:oneshot", o, exp, longs[i], "long outlen", 9, longs[i], 0, 0);
         hx_free(o);
     }
